@@ -5,21 +5,17 @@
    apollo-compiler and xv_exec_valid as KNOWN only if the verdict of xk_exec_valid with the switch(es) of listed
    classes agrees with apollo-compiler; so each class is exactly as wide as the modelled deviation.
    These are not deliberate differences (those are xv_params); nothing here is part of the specification.
-   Two further classes (variables and null items inside custom-scalar literals) were repaired in
-   validation/value.rs; their old definitions are at the end of the file, outside xk_defects. *)
+   Three further classes were repaired in /repo; their old definitions are at the end of the file, outside
+   xk_defects: variables and null items inside custom-scalar literals (validation/value.rs), and subscription root
+   fields counted whatever the type conditions (validation/operation.rs). *)
 From ApolloVerif Require Import Base.Chars Ast.Ast Schema.Model Exec.Compat Exec.Valid.
 
 Record xk_defects := {
   (* D12d (validation/value.rs, Variable case): a variable nested inside a list or input-object literal is
      compared with the position only by the innermost named type, not by IsVariableUsageAllowed *)
-  xk_nested_variable_by_named_type : bool;
-  (* validation/operation.rs validate_subscription: root fields are counted through inline fragments and named
-     fragments whatever their type conditions; CollectFields (6.3.2) skips a fragment whose type condition does
-     not apply to the subscription root type *)
-  xk_subscription_ignores_type_conditions : bool }.
+  xk_nested_variable_by_named_type : bool }.
 
-Definition xk_none : xk_defects :=
-  {| xk_nested_variable_by_named_type := false; xk_subscription_ignores_type_conditions := false |}.
+Definition xk_none : xk_defects := {| xk_nested_variable_by_named_type := false |}.
 
 (* 5.8.5 with the first defect *)
 Definition xk_r_variable_usages_allowed (q : xk_defects) (s : schema) (d : document) : bool :=
@@ -31,15 +27,11 @@ Definition xk_r_variable_usages_allowed (q : xk_defects) (s : schema) (d : docum
                                       | _, _ => true
                                       end) (xv_op_usages s (xv_frags d) o)) (xv_ops d).
 
-(* 5.2.3.1 with the second defect *)
-Definition xk_r_subscription_single_root (q : xk_defects) (p : xv_params) (s : schema) (d : document) : bool :=
-  forallb (xv_subscription_ok_gen (negb (xk_subscription_ignores_type_conditions q)) p s (xv_frags d)) (xv_ops d).
-
 Definition xk_rule_vector (q : xk_defects) (p : xv_params) (s : schema) (d : document) : list bool :=
   [ xv_r_executable_definitions d;
     xv_r_operation_name_unique d;
     xv_r_lone_anonymous d;
-    xk_r_subscription_single_root q p s d;
+    xv_r_subscription_single_root p s d;
     xv_r_fields_defined s d;
     xv_r_fields_merge s d;
     xv_r_leaf_selections s d;
@@ -71,11 +63,9 @@ Definition xk_rule_vector (q : xk_defects) (p : xv_params) (s : schema) (d : doc
 Definition xk_exec_valid (q : xk_defects) (p : xv_params) (s : schema) (d : document) : bool :=
   forallb (fun b => b) (xk_rule_vector q p s d).
 
-(* the switches by number, for the driver: 0..1 in the order of the record *)
-Definition xk_single (i : N) : xk_defects :=
-  {| xk_nested_variable_by_named_type := i =? 0; xk_subscription_ignores_type_conditions := i =? 1 |}.
-Definition xk_of_mask (m : list bool) : xk_defects :=
-  {| xk_nested_variable_by_named_type := nth 0 m false; xk_subscription_ignores_type_conditions := nth 1 m false |}.
+(* the switches by number, for the driver: 0 *)
+Definition xk_single (i : N) : xk_defects := {| xk_nested_variable_by_named_type := i =? 0 |}.
+Definition xk_of_mask (m : list bool) : xk_defects := {| xk_nested_variable_by_named_type := nth 0 m false |}.
 
 (* ------------------------------------------------------------------------------------------------ *)
 (* Two former classes, repaired in validation/value.rs (fixes/fix-c17.patch); the deviations as they were, kept
@@ -123,3 +113,17 @@ Fixpoint xk_old_scalar_list_null (s : schema) (v : value) (t : ty) {struct v} : 
 Definition xk_old_r_values_correct_type (s : schema) (d : document) : bool :=
   xv_r_values_correct_type s d
   && negb (existsb (fun vt => xk_old_scalar_list_null s (fst vt) (snd vt)) (xv_typed_values s d)).
+
+(* ------------------------------------------------------------------------------------------------ *)
+(* A former class, repaired in validation/operation.rs (fixes/fix2-c17-1.patch); the deviation as it was, kept only
+   for the record (Props/C17.v: C17_subscription_conditions_old_refuted).  Not part of xk_exec_valid, not extracted.
+
+   subscription-root-fields-counted-ignoring-type-conditions: validate_subscription walked the root selection set
+   through inline fragments and named fragments whatever their type conditions, so fields that CollectFields
+   (6.3.2) never collects for the subscription root type were counted as root fields (5.2.3.1), reported as
+   introspection fields, and had their @skip/@include reported.  walk_selections now skips the selections of a
+   fragment whose type condition does not apply to the root type. *)
+Definition xk_old_r_subscription_single_root (p : xv_params) (s : schema) (d : document) : bool :=
+  forallb (xv_subscription_ok_gen false p s (xv_frags d)) (xv_ops d).
+Definition xk_old_r_subscription_no_skip_include : xv_params -> schema -> document -> bool :=
+  xv_r_subscription_no_skip_include_gen false.
